@@ -259,6 +259,7 @@ pub fn evidence_json(check: &Check, tier: Tier, seed: u64, st: &Stats, wall: f64
     cov.set("violations_reported", J::strs(reported.iter().filter(|r| !r.known).map(|r| format!("{} replay={}", r.signature, r.replay_path))));
     cov.set("truncated_by_deadline", J::Bool(st.deadline_hit));
     cov.set("task_panics_observed", J::i(st.panics.len() as u64));
+    cov.set("watchdog_trips_not_confirmed_in_a_fresh_process", J::i(crate::runner::FALSE_TRIPS.load(std::sync::atomic::Ordering::Relaxed)));
 
     let mut e = J::obj();
     e.set("property_id", J::s(check.prop));
